@@ -654,6 +654,15 @@ class RangeAnalysis:
                     a_, b_ = int.from_bytes(raw[0:2], 'little'), int.from_bytes(raw[2:4], 'little')
                     if a_ <= b_:
                         bounds = (('c', a_, 'u16'), ('c', b_, 'u16'))
+            elif rng[0] == 'cptr' and rng[2] == 0 and ('<char>' in fn or '<u32>' in fn or '<Idx>' in fn) and \
+                    len(self.facts.mems.get(str(__import__('json').loads(rng[1]).get('mem')), {}).get('bytes', '')) == 24:
+                # a promoted RangeInclusive<char> / <u32> constant: (start, end, exhausted = false) with padding
+                import json as _json
+                tgt = _json.loads(rng[1])
+                raw = self.facts.mem_bytes(tgt['mem'])
+                a_, b_ = int.from_bytes(raw[0:4], 'little'), int.from_bytes(raw[4:8], 'little')
+                if raw[8] == 0 and a_ <= b_ and not any(raw[9:]):
+                    bounds = (('c', a_, 'u32'), ('c', b_, 'u32'))
             elif rng[0] == 'cptr' and rng[2] == 0 and '<u8>' in fn + '<u8>':
                 # a promoted RangeInclusive<u8> constant: three bytes (start, end, exhausted = 0)
                 import json as _json
